@@ -235,6 +235,123 @@ type violation struct {
 	what string
 }
 
+// ---------- anomaly signatures and finding classification ----------
+
+// sigState tracks, over one case, the anomalies reported by mkvs.VerifScan and
+// the path depth of the reference contents.
+type sigState struct {
+	f1, f2   bool // DirtyNodeWithEvictedLeaf / DirtyPointerWithoutNode ever observed
+	maxDepth int  // max trieDepth of the reference key set so far
+	// the same, frozen at the first failure of the case
+	failed         bool
+	failF1, failF2 bool
+	failDepth      int
+}
+
+func (s *sigState) scan(tree mkvs.Tree) {
+	if tree == nil {
+		return
+	}
+	quietly(func() {
+		a := mkvs.VerifScan(tree)
+		if a.DirtyNodeWithEvictedLeaf > 0 {
+			s.f1 = true
+		}
+		if a.DirtyPointerWithoutNode > 0 {
+			s.f2 = true
+		}
+	})
+}
+
+func (s *sigState) depth(m map[string][]byte) {
+	ks := make([][]byte, 0, len(m))
+	for k := range m {
+		ks = append(ks, []byte(k))
+	}
+	if d := trieDepth(ks); d > s.maxDepth {
+		s.maxDepth = d
+	}
+}
+
+// snapshot scans once more and freezes the flags (called at a failure).
+func (s *sigState) snapshot(tree mkvs.Tree) {
+	s.scan(tree)
+	s.failed, s.failF1, s.failF2, s.failDepth = true, s.f1, s.f2, s.maxDepth
+}
+
+func keyBit(k []byte, i int) bool { return k[i/8]&(1<<(7-uint(i%8))) != 0 }
+
+// trieDepth is the maximum number of internal nodes on a root-to-leaf path of
+// the compressed binary Patricia trie over the key set (bits MSB first): a set
+// S with |S| >= 2 has an internal node at its longest common bit prefix q; the
+// key equal to q is that node's embedded leaf (not a level); the others split
+// on the next bit.
+func trieDepth(keys [][]byte) int {
+	if len(keys) <= 1 {
+		return 0
+	}
+	q := len(keys[0]) * 8
+	for _, k := range keys[1:] {
+		n := min(q, len(k)*8)
+		i := 0
+		for i < n && keyBit(k, i) == keyBit(keys[0], i) {
+			i++
+		}
+		q = i
+	}
+	var s0, s1 [][]byte
+	for _, k := range keys {
+		switch {
+		case len(k)*8 == q: // embedded leaf
+		case keyBit(k, q):
+			s1 = append(s1, k)
+		default:
+			s0 = append(s0, k)
+		}
+	}
+	return 1 + max(trieDepth(s0), trieDepth(s1))
+}
+
+const (
+	findingF1 = "embedded-leaf-evicted-under-dirty-internal-node"
+	findingF2 = "node-capacity-not-above-path-depth"
+)
+
+// classify maps a failing case to a finding key ("" = ordinary violation) and
+// the mechanism text that prefixes the finding's description.
+func classify(c Case, f1 bool, depth int) (key, mechanism string) {
+	pid := "C02"
+	if c.Mode == "c03" {
+		pid = "C03"
+	}
+	switch {
+	case f1 && c.ValueCap > 0:
+		return pid + ":" + findingF1, "value-cache eviction of the embedded leaf of a dirty internal node (LeafNode.Node == nil): "
+	case c.NodeCap > 0 && c.NodeCap <= uint64(depth)+1:
+		return pid + ":" + findingF2, fmt.Sprintf("node capacity %d <= path depth %d+1, a node on the active path is evicted: ", c.NodeCap, depth)
+	}
+	return "", ""
+}
+
+// recordFinding appends the finding (replay = the un-shrunk description) and
+// keeps, per key, one shrunk replay in summary.Extra["findings_shrunk"].
+func recordFinding(sum *coqout.Summary, key, what string, c Case, sig sigState, shrink func() (Case, string)) {
+	sum.Findings = append(sum.Findings, coqout.Finding{Key: key, What: what, Replay: c})
+	sum.Count("findings", key+"/"+c.Backend)
+	fs, _ := sum.Extra["findings_shrunk"].(map[string]any)
+	if fs == nil {
+		fs = map[string]any{}
+		sum.Extra["findings_shrunk"] = fs
+	}
+	if e, ok := fs[key].(map[string]any); ok {
+		e["count"] = e["count"].(int) + 1
+		return
+	}
+	sc, swhat := shrink()
+	fs[key] = map[string]any{"case": sc, "what": swhat, "count": 1,
+		"sig_dirty_node_with_evicted_leaf": sig.failF1, "sig_dirty_pointer_without_node": sig.failF2, "max_path_depth": sig.failDepth}
+}
+
 // counts collects histogram increments of one case.
 type counts map[string]map[string]int
 
@@ -406,7 +523,7 @@ var capsMode = "all"
 
 var (
 	alphabet  = []byte{0x00, 0x01, 0x80, 0xff}
-	nodeCaps  = []uint64{0, 1, 2, 3, 8, 5000}
+	nodeCaps  = []uint64{0, 1, 2, 3, 8, 16, 32, 5000}
 	valueCaps = []uint64{0, 1, 16, 64, 16777216}
 )
 
